@@ -107,8 +107,10 @@ def c2s_record(rid, text, rng, label):
     rec["columns"] = nd.columns
     rec["strsame"] = (str(nd) == text)
     if notes:
-        for _ in range(min(40, len(notes) * len(notes))):
-            i, j = rng.randrange(len(notes)), rng.randrange(len(notes))
+        for n_ in range(min(40, len(notes) * len(notes))):
+            i = rng.randrange(len(notes))
+            # half of the pairs are neighbours (closest beats), the rest arbitrary
+            j = min(len(notes) - 1, max(0, i + rng.choice([-2, -1, 1, 2]))) if n_ % 2 else rng.randrange(len(notes))
             a, b = notes[i], notes[j]
             rec["cmp"].append({"i": i + 1, "j": j + 1, "lt": bool(a < b), "le": bool(a <= b), "gt": bool(a > b), "ge": bool(a >= b)})
         sh = list(notes)
